@@ -374,7 +374,7 @@ h!(c05_q_metadata_tlv_request, 12, {
     rt_p(tlv(0, 3));
 });
 //# funcs=MetadataTLV::encode/decode/encoded_len (response, message); bound=bodies {0,3}; stubs=S3,S4
-h!(c05_q_metadata_tlv_response_message, 12, {
+h!(c05_t_metadata_tlv_response_message, 12, {
     rt_p(tlv(1, 3));
     rt_p(tlv(2, 0));
     rt_p(tlv(2, 3));
@@ -402,16 +402,16 @@ h!(c05_q_metadata_names, 12, {
     }
 });
 //# funcs=MetadataPDU::encode/decode with one filestore-request option; bound=names (1,1), request names (1,1), small flag; stubs=S3,S4
-h!(c05_q_metadata_opt_request, 12, {
+h!(c05_t_metadata_opt_request, 12, {
     rt_f(md(FileSizeFlag::Small, 1, 1, vec![tlv(0, 1)]), FileSizeFlag::Small);
 });
 //# funcs=MetadataPDU::encode/decode with message / fault-handler options; bound=1 option; stubs=S3,S4
-h!(c05_q_metadata_opt_message_fault, 12, {
+h!(c05_t_metadata_opt_message_fault, 12, {
     rt_f(md(FileSizeFlag::Small, 1, 0, vec![tlv(2, 1)]), FileSizeFlag::Small);
     rt_f(md(FileSizeFlag::Large, 0, 1, vec![tlv(3, 0)]), FileSizeFlag::Large);
 });
 //# funcs=MetadataPDU::encode/decode with an entity-id option; bound=id widths 8 and 2; stubs=S3,S4
-hw!(c05_q_metadata_opt_entity_id, 12, [(8u8, 1u8), (2, 1)], {
+hw!(c05_t_metadata_opt_entity_id, 12, [(8u8, 1u8), (2, 1)], {
     rt_f(md(FileSizeFlag::Large, 0, 1, vec![tlv(5, 0)]), FileSizeFlag::Large);
 });
 //# funcs=MetadataPDU::encode/decode with two options (request,message); stubs=S3,S4
@@ -439,7 +439,7 @@ h!(c05_q_finished_0, 14, {
     rt_p(fin(0));
 });
 //# funcs=Finished::encode/decode/encoded_len; bound=1 filestore response, error condition with fault location (id widths 8, 1); stubs=S3,S3b,S4
-hw!(c05_q_finished_1, 14, [(8u8, 1u8), (1, 1)], {
+hw!(c05_t_finished_1, 14, [(8u8, 1u8), (1, 1)], {
     rt_p(fin(1));
 });
 //# funcs=Finished::encode/decode/encoded_len; bound=2 filestore responses; stubs=S3,S3b,S4
@@ -489,7 +489,7 @@ fn uo_wrap(v: UserOperation) {
     rt_p(v);
 }
 //# funcs=UserOperation::encode/decode/encoded_len/get_message_type (proxy operations); bound=one value of small shape per variant (1-byte ids, names <= 1); stubs=S3,S4
-h!(c05_q_uo_wrap_proxy, 12, {
+h!(c05_t_uo_wrap_proxy, 12, {
     set_widths(1, 1);
     uo_wrap(UserOperation::ProxyOperation(ProxyOperation::ProxyPutRequest(ProxyPutRequest { destination_entity_id: id(), source_filename: path(1), destination_filename: path(0) })));
     uo_wrap(UserOperation::ProxyOperation(ProxyOperation::ProxyMessageToUser(MessageToUser { message_text: bytes(1) })));
@@ -497,14 +497,14 @@ h!(c05_q_uo_wrap_proxy, 12, {
     uo_wrap(UserOperation::ProxyOperation(ProxyOperation::ProxyFaultHandlerOverride(FaultHandlerOverride { fault_handler_code: handler_code() })));
 });
 //# funcs=UserOperation::encode/decode (proxy operations, continued); stubs=S3
-h!(c05_q_uo_wrap_proxy2, 12, {
+h!(c05_q_uo_wrap_small, 12, {
     uo_wrap(UserOperation::ProxyOperation(ProxyOperation::ProxyTransmissionMode(mode())));
     uo_wrap(UserOperation::ProxyOperation(ProxyOperation::ProxyFlowLabel(FlowLabel { value: bytes(1) })));
     uo_wrap(UserOperation::ProxyOperation(ProxyOperation::ProxyPutCancel));
     uo_wrap(UserOperation::Response(UserResponse::ProxyPut(ProxyPutResponse { condition: condition(), delivery_code: delivery(), file_status: file_status() })));
 });
 //# funcs=UserOperation::encode/decode (responses); bound=1-byte ids, names <= 1; stubs=S3,S4
-h!(c05_q_uo_wrap_responses, 12, {
+h!(c05_t_uo_wrap_responses, 12, {
     set_widths(1, 1);
     uo_wrap(UserOperation::Response(UserResponse::ProxyFileStore(fs_response(1, 0, 1))));
     uo_wrap(UserOperation::Response(UserResponse::DirectoryListing(DirectoryListingResponse { response_code: listing_code(), directory_name: path(1), directory_filename: path(0) })));
@@ -513,7 +513,7 @@ h!(c05_q_uo_wrap_responses, 12, {
     uo_wrap(UserOperation::Response(UserResponse::RemoteResume(RemoteResumeResponse { suspend_indication: kani::any(), transaction_status: tx_status(), source_entity_id: id(), transaction_sequence_number: id2() })));
 });
 //# funcs=UserOperation::encode/decode (requests, originating id); bound=1-byte ids, names <= 1; stubs=S3,S4
-h!(c05_q_uo_wrap_requests, 12, {
+h!(c05_t_uo_wrap_requests, 12, {
     set_widths(1, 1);
     uo_wrap(UserOperation::OriginatingTransactionIDMessage(OriginatingTransactionIDMessage { source_entity_id: id(), transaction_sequence_number: id2() }));
     uo_wrap(UserOperation::Request(UserRequest::DirectoryListing(DirectoryListingRequest { directory_name: path(1), directory_filename: path(0) })));
@@ -522,7 +522,7 @@ h!(c05_q_uo_wrap_requests, 12, {
     uo_wrap(UserOperation::Request(UserRequest::RemoteResume(RemoteResumeRequest { source_entity_id: id(), transaction_sequence_number: id2() })));
 });
 //# funcs=UserOperation::encode/decode (SFO messages that can be built outside the crate); stubs=S3,S4
-h!(c05_q_uo_wrap_sfo, 12, {
+h!(c05_t_uo_wrap_sfo, 12, {
     uo_wrap(UserOperation::SFOMessageToUser(MessageToUser { message_text: bytes(1) }));
     uo_wrap(UserOperation::SFOFlowLabel(FlowLabel { value: bytes(1) }));
     uo_wrap(UserOperation::SFOFaultHandlerOverride(FaultHandlerOverride { fault_handler_code: handler_code() }));
@@ -531,61 +531,52 @@ h!(c05_q_uo_wrap_sfo, 12, {
 });
 
 // ------------------------------------------------------------------ whole PDUs (header + payload, CRC on and off)
-// the CRC flag, the file-size flag and the payload kind decide buffer lengths: they are concrete per case
+// ★ A whole-PDU decode does not finish (DESIGN 4, C05/C15): `PDU::decode` copies the data field to the heap and
+// dispatches on the directive octet read from that copy, so CBMC executes all seven directive decoders on every
+// path. The header and every payload codec are decided separately above; what is decided here is the ENCODE side of
+// the composition: announced length, header ++ payload layout, the two CRC octets.
 fn whole(payload: PDUPayload, crc: CRCFlag, flag: FileSizeFlag) -> PDU {
     let is_dir = matches!(payload, PDUPayload::Directive(_));
     let mut h = header(if is_dir { PDUType::FileDirective } else { PDUType::FileData }, 0);
     h.crc_flag = crc;
     h.large_file_flag = flag;
-    h.segment_metadata_flag = match &payload {
-        PDUPayload::FileData(FileDataPDU::Segmented(_)) => SegmentedData::Present,
-        _ => SegmentedData::NotPresent,
-    };
+    h.segment_metadata_flag = SegmentedData::NotPresent;
     h.pdu_data_field_length = payload.encoded_len(flag);
     PDU { header: h, payload }
 }
-const CF: [(CRCFlag, FileSizeFlag); 2] = [(CRCFlag::Present, FileSizeFlag::Small), (CRCFlag::NotPresent, FileSizeFlag::Large)];
-const CF2: [(CRCFlag, FileSizeFlag); 2] = [(CRCFlag::NotPresent, FileSizeFlag::Small), (CRCFlag::Present, FileSizeFlag::Large)];
-//# funcs=PDU::encode/decode/encoded_len,crc16_ibm_3740 with ACK payload; bound=all header fields, id widths (1,8),(8,2), (CRC,flag) = (on,small),(off,large); stubs=S3
-hw!(c05_q_pdu_ack, 24, [(8u8, 2u8)], {
-    for (crc, flag) in CF {
-        let op = Operations::Ack(PositiveAcknowledgePDU {
-            directive: PDUDirective::Finished,
-            directive_subtype_code: ACKSubDirective::Finished,
-            condition: condition(),
-            transaction_status: tx_status(),
-        });
-        rt_p(whole(PDUPayload::Directive(op), crc, flag));
+fn encode_side(p: PDU) {
+    let want = p.encoded_len() as usize;
+    let hb = p.header.clone().encode();
+    let plen = p.payload.encoded_len(p.header.large_file_flag) as usize;
+    let crc = p.header.crc_flag;
+    let e = p.encode();
+    assert!(e.len() == want, "PDU::encoded_len equals the number of bytes produced");
+    assert!(e.len() == hb.len() + plen + if crc == CRCFlag::Present { 2 } else { 0 }, "header ++ payload (++ CRC)");
+    let mut i = 0;
+    while i < hb.len() {
+        assert!(e[i] == hb[i], "the PDU starts with its header");
+        i += 1;
     }
-});
-//# funcs=PDU::encode/decode with Prompt and KeepAlive payloads; bound=id widths (2,4), (CRC,flag) = (off,small),(on,large); stubs=S3
-hw!(c05_q_pdu_prompt_keepalive, 24, [(2u8, 4u8)], {
-    for (crc, flag) in CF2 {
-        rt_p(whole(PDUPayload::Directive(Operations::Prompt(PromptPDU { nak_or_keep_alive: nak_or_ka() })), crc, flag));
-        rt_p(whole(PDUPayload::Directive(Operations::KeepAlive(KeepAlivePDU { progress: fsv(flag) })), crc, flag));
-    }
-});
-//# funcs=PDU::encode/decode with EOF payload; bound=id widths (4,1), (CRC,flag) = (on,small),(off,large), with and without fault location; stubs=S3
-hw!(c05_q_pdu_eof, 40, [(4u8, 1u8)], {
-    for (crc, flag) in CF {
-        let e = EndOfFile { condition: error_condition(), checksum: kani::any(), file_size: fsv(flag), fault_location: Some(id()) };
-        rt_p(whole(PDUPayload::Directive(Operations::EoF(e)), crc, flag));
-        let e = EndOfFile { condition: Condition::NoError, checksum: kani::any(), file_size: fsv(flag), fault_location: None };
-        rt_p(whole(PDUPayload::Directive(Operations::EoF(e)), crc, flag));
-    }
-});
-//# funcs=PDU::encode/decode with file-data payload (unsegmented, 2 bytes); bound=id widths (1,1),(8,8), (CRC,flag) = (on,small),(off,large); stubs=S3
-hw!(c05_q_pdu_file_data, 40, [(1u8, 8u8)], {
-    for (crc, flag) in CF {
-        rt_p(whole(PDUPayload::FileData(FileDataPDU::Unsegmented(UnsegmentedFileData { offset: fsv(flag), file_data: bytes(2) })), crc, flag));
-    }
-});
-//# funcs=PDU::encode/decode with Metadata / Finished / NAK payloads; bound=names 1, no options; 1 response; 1 request; id widths (1,2); stubs=S3,S4
-hw!(c05_t_pdu_big_directives, 48, [(1u8, 2u8)], {
-    for (crc, flag) in CF {
-        let m = Operations::Metadata(md(flag, 1, 1, vec![]));
-        rt_p(whole(PDUPayload::Directive(m), crc, flag));
-        rt_p(whole(PDUPayload::Directive(Operations::Finished(fin(1))), crc, flag));
-        rt_p(whole(PDUPayload::Directive(Operations::Nak(nak(flag, 1))), crc, flag));
-    }
+    forget(e);
+    forget(hb);
+}
+//# funcs=PDU::encode,PDU::encoded_len,PDUHeader::encode,crc16_ibm_3740; bound=ACK / KeepAlive / file data (2 bytes) payloads, id widths (1,8),(8,2), CRC on+small flag and CRC off+large flag; stubs=S3,S7
+h!(#[kani::stub(cfdp_core::pdu::PDUPayload::encode, payload_encode_stub)] c05_q_pdu_encode_side, 40, {
+    widths(&[(1u8, 8u8), (8, 2)], || {
+        for (crc, flag) in [(CRCFlag::Present, FileSizeFlag::Small), (CRCFlag::NotPresent, FileSizeFlag::Large)] {
+            let ack = Operations::Ack(PositiveAcknowledgePDU {
+                directive: PDUDirective::Finished,
+                directive_subtype_code: ACKSubDirective::Finished,
+                condition: condition(),
+                transaction_status: tx_status(),
+            });
+            encode_side(whole(PDUPayload::Directive(ack), crc, flag));
+            encode_side(whole(PDUPayload::Directive(Operations::KeepAlive(KeepAlivePDU { progress: fsv(flag) })), crc, flag));
+            encode_side(whole(
+                PDUPayload::FileData(FileDataPDU::Unsegmented(UnsegmentedFileData { offset: fsv(flag), file_data: bytes(2) })),
+                crc,
+                flag,
+            ));
+        }
+    });
 });
